@@ -339,10 +339,10 @@ func runHeaders(t *testing.T, rc *core.RunCtx) {
 		case k < 88: // the node goes away for a while
 			rc.Logf("t=%s event: %s goes down", w.clock(), p.addr.IP)
 			rc.Fault("net.down")
-			p.up = false
+			p.setUp(false)
 			p.disconnect("down")
 			pp := p
-			w.after(time.Duration(5+tp.Intn(120))*time.Second, func() { pp.up = true })
+			w.after(time.Duration(5+tp.Intn(120))*time.Second, func() { pp.setUp(true) })
 		default: // announce current tip by inv
 			p.announce(false, 1)
 		}
@@ -469,12 +469,12 @@ func finishHeaders(w *World, wt *watcher, plan *chainPlan, adopt bool) {
 	rc := w.rc
 	v := wt.prev
 	rc.Res.Steps = w.steps
-	rc.Res.Nontrivial = v.tip() > 0 || w.net.dials > 1
+	rc.Res.Nontrivial = v.tip() > 0 || w.net.nDials() > 1
 	if wt.nReorg > 0 {
 		rc.Probe("run_with_reorg")
 	}
 	rc.Res.Sample = map[string]any{"main": plan.main.Height, "forks": len(plan.forks), "nodes": len(w.peers),
-		"client_tip": v.tip(), "reorgs": wt.nReorg, "extends": wt.nExtend, "dials": w.net.dials, "adopt_mode": adopt,
+		"client_tip": v.tip(), "reorgs": wt.nReorg, "extends": wt.nExtend, "dials": w.net.nDials(), "adopt_mode": adopt,
 		"checkpoints": cpHeights(w.params.Checkpoints)}
 }
 
